@@ -21,13 +21,21 @@ ids = st.one_of(
     st.lists(st.integers(0, 2), max_size=2),
     st.dictionaries(st.text(max_size=1), st.integers(0, 1), max_size=1),
     st.integers(-2 ** 53, 2 ** 53), st.floats(allow_nan=False, allow_infinity=False),
+    st.sampled_from(["\ud83d", "x\udc00"]),
 )
 
 versions = st.sampled_from(["2.0", "2.0", "2.0", 2, 2.0, None, "1.0", "", "abc", [], True])
 
+# keyword names that collide with parameter names commonly used inside call paths
+TRICKY_KEYS = ["self", "func", "method", "params", "args", "kwargs", "config", "cls", "name", "request"]
+# strings holding unpaired surrogates: a valid (ASCII) JSON text can spell them with \\uXXXX escapes
+SURROGATE_TEXT = ["\ud83d", "a\udfffb", "\ud800\ud800"]
+values = st.one_of(values, values, values, values, st.sampled_from(SURROGATE_TEXT))
+
 good_params = st.one_of(
     st.lists(values, max_size=3),
     st.dictionaries(st.sampled_from(["a", "b", "c", "k", "é"]), values, max_size=3),
+    st.dictionaries(st.sampled_from(["a", "b"] + TRICKY_KEYS), values, max_size=3),
     st.sampled_from([[], {}, [1, 2], {"a": 1, "b": 2}, [None], {"a": None}]),
 )
 
